@@ -44,6 +44,9 @@ pub struct AiBlock {
     pub file: u8,
     /// render in a JavaScript block comment with the condition spread over two lines
     pub multiline_condition: bool,
+    /// put a block WITHOUT check-ai (a plain named block) in front of this one in its file
+    #[serde(default)]
+    pub plain_before: bool,
 }
 
 #[derive(Clone, Debug, Serialize, Deserialize, Hash, PartialEq, Eq)]
@@ -127,6 +130,10 @@ fn lay_out(c: &AiCase) -> Vec<Laid> {
             }
             let tag = format!("<block{attrs}>");
             let (open, close, cl) = if js { ("/* ", " */", "// ") } else { ("# ", "", "# ") };
+            if b.plain_before {
+                text.push_str(&format!("{open}<block name=\"plain{i}\">{close}\n{cl}nothing to check\n{open}</block>{close}\n\n"));
+                line += 4;
+            }
             let tag_line = line;
             let tag_lines = tag.matches('\n').count();
             text.push_str(&format!("{open}{tag}{close}\n"));
@@ -334,10 +341,10 @@ pub fn case_strategy() -> BoxedStrategy<AiCase> {
         1 => Just("ends with ideographic space\u{3000}".to_string()),
         1 => Just("ends with nbsp\u{a0}".to_string()),
     ];
-    let block = (text.clone(), proptest::collection::vec(text, 0..5), proptest::option::weighted(0.3, 0u8..5), 0u8..16, proptest::bool::weighted(0.2), 0u8..3, proptest::bool::weighted(0.15)).prop_map(
-        |(condition, lines, pattern, reply, warning, file, multiline_condition)| {
+    let block = (text.clone(), proptest::collection::vec(text, 0..5), proptest::option::weighted(0.3, 0u8..5), 0u8..16, proptest::bool::weighted(0.2), 0u8..3, proptest::bool::weighted(0.15), proptest::bool::weighted(0.25)).prop_map(
+        |(condition, lines, pattern, reply, warning, file, multiline_condition, plain_before)| {
             let condition = if condition.trim().is_empty() { "must hold".to_string() } else { condition.replace('"', "'") };
-            AiBlock { condition, lines: lines.into_iter().map(|l| l.replace("<block", "<blok").replace("</block", "</blok")).collect(), pattern, reply, warning, file, multiline_condition }
+            AiBlock { condition, lines: lines.into_iter().map(|l| l.replace("<block", "<blok").replace("</block", "</blok")).collect(), pattern, reply, warning, file, multiline_condition, plain_before }
         },
     );
     (
@@ -352,7 +359,7 @@ pub fn case_strategy() -> BoxedStrategy<AiCase> {
 }
 
 pub fn run(run: &mut Run) {
-    run.rule = "random: 1..8 check-ai blocks spread over up to 3 files (Python `#` comments, or a JavaScript block comment with the condition spread over two lines), conditions and contents over printable ASCII incl. quotes, backslashes, braces, escapes, plus Unicode/NBSP/emoji, optional check-ai-pattern from the key-pattern family, severity warning in 20%, scan or new-file diff mode, two keys and two model names; reply per block from 16 texts (OK, ok, Ok., OK., oK, ` OK`, `OK `, OKAY, OK.., multi-line, quotes/backslashes/tab, Unicode, empty); in 45% one fault from 14 kinds (no key, empty key, connection refused, 400/401 JSON, 404/400 plain, 200 invalid JSON, 200 without choices, empty choices, null content, closed mid-body, closed at once, empty body) injected on the k-th arriving request. A recording fake endpoint is the observer. Non-trivial = a fault case, or >= 2 blocks with content that JSON must escape.".into();
+    run.rule = "random: 1..8 check-ai blocks spread over up to 3 files (Python `#` comments, or a JavaScript block comment with the condition spread over two lines), conditions and contents over printable ASCII incl. quotes, backslashes, braces, escapes, plus Unicode/NBSP/emoji, optional check-ai-pattern from the key-pattern family, plain blocks without check-ai in front of 25% of them, severity warning in 20%, scan or new-file diff mode, two keys and two model names; reply per block from 16 texts (OK, ok, Ok., OK., oK, ` OK`, `OK `, OKAY, OK.., multi-line, quotes/backslashes/tab, Unicode, empty); in 45% one fault from 14 kinds (no key, empty key, connection refused, 400/401 JSON, 404/400 plain, 200 invalid JSON, 200 without choices, empty choices, null content, closed mid-body, closed at once, empty body) injected on the k-th arriving request. A recording fake endpoint is the observer. Non-trivial = a fault case, or >= 2 blocks with content that JSON must escape.".into();
     run.assumptions = vec![
         "429 and 5xx are not injected: the client library retries them with back-off for minutes and the statement does not list them".into(),
         "which block the k-th arriving request belongs to is not controlled".into(),
